@@ -568,12 +568,96 @@ func c16TrackingRaceScenario(custom bool) *explore.Scenario {
 	return sc
 }
 
+// c16TwoPanicsScenario: two foreground and two background handlers of one event panic at the same time, under
+// statement-granularity interleaving of the recovery path on Conn: whatever the recovery does with the connection
+// object, the four recoveries must not race with each other (a racing map write kills the process).
+func c16TwoPanicsScenario() *explore.Scenario {
+	sc := &explore.Scenario{
+		Family: "misbehave",
+		Name:   "misbehave/four-panics-at-once/default-recovery",
+		Params: map[string]interface{}{"who": "four-at-once"},
+		Opt:    vx.Options{MaxSteps: 100000, StmtMode: true},
+	}
+	sc.Main = func(env *vx.Env) {
+		c := NewClient("me", nil)
+		for i := 0; i < 2; i++ {
+			i := i
+			c.HandleFunc("PRIVMSG", func(conn *client.Conn, line *client.Line) {
+				if line.Text() == "e0" {
+					panic(fmt.Sprintf("boom-fg%d", i))
+				}
+				vx.Observe("ev", fmt.Sprintf("good fg%d %s", i, line.Text()))
+			})
+			c.HandleBG("PRIVMSG", client.HandlerFunc(func(conn *client.Conn, line *client.Line) {
+				if line.Text() == "e0" {
+					panic(fmt.Sprintf("boom-bg%d", i))
+				}
+				vx.Observe("ev", fmt.Sprintf("good bg%d %s", i, line.Text()))
+			}))
+		}
+		var vc *vx.Conn
+		env.ConnSetup = func(x *vx.Conn) { vc = x }
+		if err := c.Connect(); err != nil {
+			return
+		}
+		vx.Quiesce()
+		vx.StmtMode(true)
+		vc.SendLines(":o!u@h PRIVMSG #c :e0")
+		vx.Quiesce()
+		_ = c.String()
+		vx.StmtMode(false)
+		vc.SendLines(":o!u@h PRIVMSG #c :e1", "PING :still-alive")
+		vx.Quiesce()
+		vx.Observe("ev", fmt.Sprintf("end connected=%v", c.Connected()))
+		vc.EOF()
+		vx.Quiesce()
+	}
+	sc.Check = func(o *vx.Outcome) []explore.Finding {
+		if fs := stdOutcome(o); fs != nil {
+			return fs
+		}
+		ev := o.Log("ev")
+		var fs []explore.Finding
+		bad := func(id, msg string) {
+			fs = append(fs, explore.Finding{Oracle: id, Msg: msg + " :: " + strings.Join(ev, "; ")})
+		}
+		for _, r := range o.Races {
+			if strings.Contains(r.Field, ":Conn.") && (r.WriteA || r.WriteB) {
+				bad("data-race-in-recovery", "two recoveries (or a recovery and a query) touch the connection object without synchronisation: "+r.String())
+				break
+			}
+		}
+		for _, h := range []string{"fg0", "fg1", "bg0", "bg1"} {
+			if count(ev, "good "+h+" e1") != 1 {
+				bad("later-event-not-delivered", "handler "+h+" did not get the event after the one at which all four handlers panicked")
+			}
+		}
+		n := 0
+		for _, l := range o.Logs {
+			if strings.Contains(fmt.Sprintf(l.Format, l.Args...), "boom-") {
+				n++
+			}
+		}
+		if n < 4 {
+			bad("panic-not-logged", fmt.Sprintf("the default recovery logged %d of the 4 panics", n))
+		}
+		if count(ev, "end connected=true") != 1 || !HasLine(o.Conns[0].Lines(), "PONG :still-alive") {
+			bad("connection-dropped", "the connection is not alive and responsive afterwards")
+		}
+		if l := ClientLeaks(o); len(l) > 0 {
+			bad("leak", "tasks left at the end: "+strings.Join(l, " | "))
+		}
+		return fs
+	}
+	return sc
+}
+
 func init() {
 	Register(&Prop{
 		ID:   "C16",
 		Rule: "event sequences of 2-4 PRIVMSGs with three foreground and two background user handlers; at one event one handler misbehaves: user foreground / user background panics with a string, error or struct value or a nil pointer whose Error / String method would panic, a built-in handler (PING without token, 433 without arguments, CAP with one argument; with tracking on a JOIN without channel, followed by DisableStateTracking) panics on its own input, or a background handler blocks for ever (next to a well-behaved one, or alone on its verb); default LogPanic or a custom recovery hook (set in the Config given to Client, or through Config() after all handlers are registered); optionally a foreground handler that registers a background handler at every event and removes the previous one; the panic raised 40 / 300 calls below the handler; the Config a struct literal with nil Me / empty nick / empty ident (Client() repairs the identity); a handler registered first on REGISTER / CONNECTED / DISCONNECTED that panics at both of two connections; every execution within the deviation budgets; distinct = distinct canonical observation per scenario",
 		Assumptions: []string{
-			"interleavings at synchronisation/channel/socket granularity (DESIGN.md 3.8); statement granularity on Conn in the one scenario that races DisableStateTracking() against the built-in 001 handler",
+			"interleavings at synchronisation/channel/socket granularity (DESIGN.md 3.8); statement granularity on Conn in the scenario that races DisableStateTracking() against the built-in 001 handler and in the one where four handlers of one event panic at once (race monitor on the fields of Conn)",
 			"panic(nil) is left out: its meaning depends on the module's go directive, which the instrumented copy changes",
 		},
 		Jobs: func(tier string) []Job {
@@ -652,6 +736,7 @@ func init() {
 			for _, custom := range []bool{false, true} {
 				jobs = append(jobs, ExploreJob("C16", ExploreSpec{Sc: c16TrackingRaceScenario(custom), Variants: []int{1, 2, 3}, Budgets: []explore.Budget{{0, 0}, {1, 0}, {2, 0}}, Cache: true}, 40))
 			}
+			jobs = append(jobs, ExploreJob("C16", ExploreSpec{Sc: c16TwoPanicsScenario(), Variants: []int{1, 2, 3}, Budgets: []explore.Budget{{0, 0}, {1, 0}}, Cache: false}, 40))
 			add(c16Params{Who: "bg-block", At: 0, Value: "none", NEvents: 2})
 			add(c16Params{Who: "bg-block", At: 0, Value: "none", NEvents: 3})
 			add(c16Params{Who: "bg-block", At: 1, Value: "none", Custom: true, NEvents: 3})
